@@ -140,6 +140,8 @@ def gen_case(rng):
     r = rng.random()
     nf = rng.randint(1, 3) if r < 0.1 else (rng.randint(4, 12) if r < 0.7 else rng.randint(13, 36))
     gk, f = G.gen_freq(rng, nf)
+    if f[0] == 0.0 and rng.random() < 0.6:
+        f = [x + 1.0 / 64 for x in f]          # a peak at f = 0 makes the solver run to its iteration limit
     layout = rng.choice(["scalar", "time", "time", "timelat", "flat"])
     if layout == "scalar":
         shape, npts = [], 1
@@ -505,12 +507,19 @@ def batch_vs_single(ctx, rng, n):
         if "error" in r0 or "error" in r1:
             ctx.oracle_fail("peak functions raised: %r" % ([r for r in (r0, r1) if "error" in r][:1],), rep)
             continue
+        allnan_other = c["kind"] == "1d" and any(all(math.isnan(x) for x in e) for j, e in enumerate(c["E"]) if j != pi)
         for bi, (lo, hi) in enumerate(c["bands"]):
             ctx.count(["bvs", c["f"], lo, hi, c["E"][pi]], True)
             for nm in ("index", "frequency", "period", "direction", "spread"):
                 a = r0["bands"][bi][nm]; s = r1["bands"][bi][nm]
-                if isinstance(a, dict) or isinstance(s, dict):
+                if isinstance(a, dict) and isinstance(s, dict):
+                    ctx.tally("edge: all-NaN spectrum raises inside and outside a batch")
+                    continue
+                if isinstance(s, dict) or (isinstance(a, dict) and not allnan_other):
                     ctx.oracle_fail("peak_%s raised inside/outside a batch: %r / %r" % (nm, a, s), dict(rep, fmin=lo, fmax=hi))
+                    continue
+                if isinstance(a, dict):
+                    ctx.tally("edge: another member of the batch is all-NaN")
                     continue
                 if not C.close(C.unfx(a[pi]), C.unfx(s[0]), 1e-12, 0.0):
                     ctx.oracle_fail("peak_%s of point %d inside the batch is %r, of the same spectrum alone %r"
